@@ -40,6 +40,9 @@ import (
 //	                 data record for it (which may only go out if the template did)
 //	wide_record      one data record for the wide template (an unsigned32 and three strings) whose fields are
 //	                 each encodable but add up to Size bytes, beyond what a message holds
+//	reduced_size     a template holding a user-defined element of a fixed-width type declared with a shorter
+//	                 length (reduced-size encoding, RFC 7011 6.2: Ill names it, Delta=1 puts it last), then a
+//	                 record with a small value: an error, or the value in exactly the declared number of bytes
 //	illtyped         data record for the ill-typed template holding a value that cannot be encoded: Ill names it
 type Step struct {
 	Kind    string        `json:"kind"`
@@ -98,12 +101,15 @@ func wideTpl() []ref.Field {
 	return []ref.Field{glue.UserField(ref.TU32), glue.UserField(ref.TString), glue.UserField(ref.TString), glue.UserField(ref.TString)}
 }
 
+var reducedKinds = []string{"u64_in_4", "u32_in_2", "i32_in_2", "u16_in_1", "f64_in_4"}
+
 const (
-	idWide   = 999
-	idSize   = 1000
-	idIll    = 1001
-	idMarker = 1002
-	idBigTpl = 2000 // + step index
+	idReduced = 900 // .. 909
+	idWide    = 999
+	idSize    = 1000
+	idIll     = 1001
+	idMarker  = 1002
+	idBigTpl  = 2000 // + step index
 )
 
 func oneByteFields(n int) []ref.Field {
@@ -428,6 +434,41 @@ func runCase(c Case, st *Stats) *ev.Failure {
 				dwant = ref.DataMessage(h, ref.Template{ID: id, Fields: fields}, r)
 			}
 			fl = send(i, fmt.Sprintf("data for template %d whose template message was %ssent", id, map[bool]string{true: "", false: "never "}[tplSent]), dset, derr, dwant, false)
+			if fl == nil {
+				fl = marker(i)
+			}
+		case "reduced_size":
+			k := 0
+			for j, n := range reducedKinds {
+				if n == s.Ill {
+					k = j
+				}
+			}
+			rt := []ref.Type{ref.TU64, ref.TU32, ref.TI32, ref.TU16, ref.TF64}[k]
+			rl := []uint16{4, 2, 2, 1, 4}[k]
+			rv := []ref.Value{{U: 443}, {U: 443}, {U: uint64(0xFFFFFFFE)}, {U: 7}, {U: 0x3FF8000000000000}}[k] // 443, 443, -2, 7, 1.5
+			rb := [][]byte{{0, 0, 1, 0xBB}, {1, 0xBB}, {0xFF, 0xFE}, {7}, {0x3F, 0xC0, 0, 0}}[k]               // the same values at the declared width
+			re := ref.Field{ID: uint16(950 + k), Ent: glue.UserEnt, Len: rl, Type: rt, Name: "userReduced_" + s.Ill}
+			asOctets := ref.Field{ID: re.ID, Ent: re.Ent, Len: rl, Type: ref.TOctets, Name: re.Name}
+			u8 := glue.UserField(ref.TU8)
+			fields, wire, vals, wvals := []ref.Field{u8, re, u8}, []ref.Field{u8, asOctets, u8}, []ref.Value{{U: 1}, rv, {U: 2}}, []ref.Value{{U: 1}, {B: rb}, {U: 2}}
+			if s.Delta == 1 {
+				fields, wire, vals, wvals = fields[:2], wire[:2], vals[:2], wvals[:2]
+			}
+			id := uint16(idReduced + 2*k + s.Delta)
+			if !onWire[id] {
+				set, err := exph.TemplateSet(id, fields, s.Path)
+				if err != nil {
+					break // the element is refused when the template is built: fine
+				}
+				if _, err := ep.SendSet(set); err != nil {
+					break // or when it is sent
+				}
+				expect = append(expect, ref.TemplateMessage(h, ref.Template{ID: id, Fields: wire}))
+				onWire[id] = true
+			}
+			set, err := exph.DataSet(id, fields, [][]ref.Value{vals}, s.Path)
+			fl = send(i, fmt.Sprintf("record holding a %s value in an element declared with length %d", rt, rl), set, err, ref.DataMessage(h, ref.Template{ID: id, Fields: wire}, [][]ref.Value{wvals}), true)
 			if fl == nil {
 				fl = marker(i)
 			}
@@ -965,6 +1006,17 @@ func TestC09(t *testing.T) {
 				if f := runRecorded("enum_size", c); f != nil {
 					rec.Violation("enum_size", c, f.Msg)
 					t.Fatalf("%s", f.Msg)
+				}
+			}
+		}
+		for _, rk := range reducedKinds {
+			for path := 0; path < 4; path++ {
+				for last := 0; last < 2; last++ {
+					c := Case{Proto: proto, Steps: []Step{{Kind: "reduced_size", Ill: rk, Path: path, Delta: last}}}
+					if f := runRecorded("enum_illtyped", c); f != nil {
+						rec.Violation("enum_illtyped", c, f.Msg)
+						t.Fatalf("%s", f.Msg)
+					}
 				}
 			}
 		}
